@@ -1877,6 +1877,11 @@ class VirtualMachine:
     leftover_y = self.ctx.program.NewVariable()
     op_not_eq = op_name not in ("EQ", "NE")
     reported = False
+    # Results that are known statically. They are added to `ret` only after the
+    # overloaded comparison methods have been called: that call may move on to
+    # a new CFG node, and bindings added to `ret` at the old node would be
+    # treated as overwritten by the ones added at the new node.
+    known_results = []
     for b1 in x.bindings:
       for b2 in y.bindings:
         op = getattr(slots, op_name)
@@ -1898,24 +1903,20 @@ class VirtualMachine:
           # message) when the comparator method is defined on a metaclass, since
           # compare only raises an error for classes with metaclass=type.
           if op_not_eq and isinstance(b1.data, abstract.Class) and err:
-            ret.AddBinding(self.ctx.convert.unsolvable, {b1, b2}, state.node)
+            known_results.append((self.ctx.convert.unsolvable, b1, b2))
           elif isinstance(b1.data, abstract.SequenceLength):
             # `None` is a meaningful return value when pattern matching
-            ret.AddBinding(
-                self.ctx.convert.bool_values[val], {b1, b2}, state.node
-            )
+            known_results.append((self.ctx.convert.bool_values[val], b1, b2))
           else:
             leftover_x.PasteBinding(b1, state.node)
             leftover_y.PasteBinding(b2, state.node)
         else:
-          ret.AddBinding(
-              self.ctx.convert.bool_values[val], {b1, b2}, state.node
-          )
+          known_results.append((self.ctx.convert.bool_values[val], b1, b2))
     if leftover_x.bindings:
       op = f"__{op_name.lower()}__"
       # If we do not already have a return value, raise any errors caught by the
       # overloaded comparison method.
-      report_errors = op_not_eq and not bool(ret.bindings) and not reported
+      report_errors = op_not_eq and not known_results and not reported
       state, leftover_ret = vm_utils.call_binary_operator(
           state,
           op,
@@ -1925,6 +1926,8 @@ class VirtualMachine:
           ctx=self.ctx,
       )
       ret.PasteVariable(leftover_ret, state.node)
+    for val, b1, b2 in known_results:
+      ret.AddBinding(val, {b1, b2}, state.node)
     return state, ret
 
   def _coerce_to_bool(self, var, true_val=True):
